@@ -248,6 +248,60 @@ theorem edge_match_is_nearest_admissible (r32 : α → α) (tol : Option (α × 
   · have hs2 : Sorted ECand.d2 (c :: post) := (List.pairwise_append.mp hs).2.1
     exact hs2.head_le c' hm
 
+/-- C16 (edge, what is written): when the edge plugin succeeds, `origin_edge` holds the result of the
+search from the origin and — if the query has a destination — `destination_edge` that of the search from
+the destination, both run with the road classes read from the query (`edge_match_is_nearest_admissible`
+says what a search result is). -/
+theorem edge_process_writes_matches (r32 : α → α) (tol : Option (α × DistanceUnit))
+    (mapping : List (String × Nat)) (hasLookup : Bool) (q : Json) (oc dc : List (ECand α))
+    (hok : (edgeProcess r32 tol mapping hasLookup q oc dc).err = none) :
+    ∃ classes eo, readRoadClasses mapping q = .ok classes ∧
+      searchEdge r32 tol classes hasLookup oc = .ok (some eo) ∧
+      (edgeProcess r32 tol mapping hasLookup q oc dc).query.get? "origin_edge" = some (idJson eo) ∧
+      (destinationCoordinate q = .ok true → ∃ ed, searchEdge r32 tol classes hasLookup dc = .ok (some ed) ∧
+        (edgeProcess r32 tol mapping hasLookup q oc dc).query.get? "destination_edge" = some (idJson ed)) := by
+  unfold edgeProcess at hok ⊢
+  cases hr : readRoadClasses mapping q with
+  | error e => simp [hr] at hok
+  | ok classes =>
+    cases ho : originCoordinate q with
+    | error e => simp [hr, ho] at hok
+    | ok _ =>
+      cases hd : destinationCoordinate q with
+      | error e => simp [hr, ho, hd] at hok
+      | ok hasDst =>
+        cases hso : searchEdge r32 tol classes hasLookup oc with
+        | error e => simp [hr, ho, hd, searchEdge!, hso] at hok
+        | ok ro =>
+          cases ro with
+          | none => simp [hr, ho, hd, searchEdge!, hso] at hok
+          | some eo =>
+            refine ⟨classes, eo, rfl, hso, ?_⟩
+            cases q with
+            | obj kvs =>
+              cases hasDst with
+              | false =>
+                refine ⟨?_, fun h => by cases h⟩
+                simp only [searchEdge!, hso, addField_obj, Bool.false_eq_true, if_false]
+                exact lookup_insertKv_same _ _ _
+              | true =>
+                cases hsd : searchEdge r32 tol classes hasLookup dc with
+                | error e => simp [hr, ho, hd, searchEdge!, hso, hsd] at hok
+                | ok rd =>
+                  cases rd with
+                  | none => simp [hr, ho, hd, searchEdge!, hso, hsd] at hok
+                  | some ed =>
+                    simp only [searchEdge!, hso, hsd, addField_obj, if_true]
+                    refine ⟨?_, fun _ => ⟨ed, rfl, lookup_insertKv_same _ _ _⟩⟩
+                    show lookup _ "origin_edge" = _
+                    rw [lookup_insertKv_other _ _ _ _ (by decide)]
+                    exact lookup_insertKv_same _ _ _
+            | null => simp [numField, originCoordinate, Json.get?] at ho
+            | bool b => simp [numField, originCoordinate, Json.get?] at ho
+            | num l b => simp [numField, originCoordinate, Json.get?] at ho
+            | str s => simp [numField, originCoordinate, Json.get?] at ho
+            | arr xs => simp [numField, originCoordinate, Json.get?] at ho
+
 /-! ### edge tolerance — as the code really behaves -/
 
 /-
@@ -311,17 +365,18 @@ theorem edge_tolerance_one_metre_accepts_one_degree (d2 : α) (h : d2 ≤ 1) :
 `EdgeRtreeInputPlugin` answered `origin_edge = 0`): one edge whose centroid is (0°, 0°), the query at
 (0.003°, 0°) — `distance_2 = 0.000009` deg², great-circle distance 333.58 m (real `haversine`) — and a
 configured tolerance of 1 metre.  The model, like the code, matches the edge although it lies more than
-three hundred times the tolerance away. -/
+three hundred times the tolerance away: the full statement "a match lies within the tolerance in metres"
+is false. -/
 theorem edge_tolerance_counterexample :
-    ∃ (t : ℚ) (u : DistanceUnit) (cands : List (ECand ℚ)) (gcMetres : Nat → ℚ) (id : Nat),
-      t = 1 ∧ u = .meters ∧ cands = [⟨0, 9 / 1000000, none, true⟩] ∧ gcMetres 0 = 33358 / 100 ∧
-      searchEdge (fun x => x) (some (t, u)) none false cands = .ok (some id) ∧
-      u.convert DistanceUnit.meters t < gcMetres id := by
-  refine ⟨1, .meters, _, fun _ => 33358 / 100, 0, rfl, rfl, rfl, rfl, ?_, ?_⟩
-  · simp [searchEdge, withinTolerance, validClass, DistanceUnit.convert, DistanceUnit.factor, Factor.apply]
-    norm_num
-  · simp [DistanceUnit.convert, DistanceUnit.factor, Factor.apply]
-    norm_num
+    ¬ ∀ (t : ℚ) (u : DistanceUnit) (cands : List (ECand ℚ)) (id : Nat),
+        searchEdge (fun x => x) (some (t, u)) none false cands = .ok (some id) →
+        ∀ c ∈ cands, c.id = id → ∀ g, c.gc = some g → g ≤ u.convert DistanceUnit.meters t := by
+  intro h
+  have h1 := h 1 .meters [⟨0, 9 / 1000000, none, true, some (33358 / 100)⟩] 0
+    (by simp [searchEdge, withinTolerance, validClass, DistanceUnit.convert, DistanceUnit.factor, Factor.apply]; norm_num)
+    _ List.mem_cons_self rfl _ rfl
+  simp [DistanceUnit.convert, DistanceUnit.factor, Factor.apply] at h1
+  norm_num at h1
 
 /-- without a configured tolerance the edge matcher returns the first admissible candidate whenever there
 is one (the tolerance clause is then vacuous and the property holds) -/
@@ -373,6 +428,27 @@ theorem vertex_other_fields_unchanged (tol : Option (α × DistanceUnit)) (q : J
           · exact h1
           · next q2 hm2 => exact h1.trans (matchVertexInto_sameOthers (by decide) hm2)
         · exact h1
+
+/-- C16 (vertex matcher, what an error can leave behind): when the vertex plugin fails, at most
+`origin_vertex` has been written (the origin is matched and written before the destination is examined);
+`destination_vertex` and every other field are as they were. -/
+theorem vertex_error_writes_at_most_origin (tol : Option (α × DistanceUnit)) (q : Json) (oc dc : List (VCand α))
+    (h : (vertexProcess tol q oc dc).err ≠ none) :
+    SameOthers ["origin_vertex"] q (vertexProcess tol q oc dc).query := by
+  unfold vertexProcess at h ⊢
+  split
+  · exact SameOthers.refl _ _
+  · split
+    · exact SameOthers.refl _ _
+    · split
+      · exact SameOthers.refl _ _
+      · next q1 hm =>
+        have h1 : SameOthers ["origin_vertex"] q q1 := matchVertexInto_sameOthers (by decide) hm
+        split
+        · split
+          · exact h1
+          · simp_all
+        · simp_all
 
 /-- C16 (other fields, edge matcher): as above for `origin_edge` / `destination_edge`. -/
 theorem edge_other_fields_unchanged (r32 : α → α) (tol : Option (α × DistanceUnit))
@@ -507,11 +583,11 @@ example : ¬ Passes (some ((5 : ℚ), DistanceUnit.kilometers)) ⟨7, 1 / 100, s
   simp [DistanceUnit.convert, DistanceUnit.factor, Factor.apply, Lit.lit] at h; norm_num at h
 -- edges: the nearest candidate is of an excluded road class, the second is admissible and is the match
 example : searchEdge (fun x => x) (none : Option (ℚ × DistanceUnit)) (some [1, 2]) true
-    [⟨4, 1 / 100, some 5, true⟩, ⟨9, 1 / 50, some 2, true⟩, ⟨1, 1 / 20, some 1, true⟩] = .ok (some 9) := by
+    [⟨4, 1 / 100, some 5, true, none⟩, ⟨9, 1 / 50, some 2, true, none⟩, ⟨1, 1 / 20, some 1, true, none⟩] = .ok (some 9) := by
   simp [searchEdge, withinTolerance, validClass]
 -- the code's tolerance rule has both outcomes
 example : searchEdge (fun x => x) (some ((1 / 1000 : ℚ), DistanceUnit.meters)) none false
-    [⟨4, 1 / 100, none, true⟩] = .ok none := by
+    [⟨4, 1 / 100, none, true, some 11119⟩] = .ok none := by
   simp [searchEdge, withinTolerance, validClass, DistanceUnit.convert, DistanceUnit.factor, Factor.apply]; norm_num
 -- other fields: the example query keeps `model` between the two coordinates
 example : (vertexProcess (none : Option (ℚ × DistanceUnit)) exQuery exVerts []).query.get? "model" = some (.str "m") := by
